@@ -660,7 +660,8 @@ INPLACE_NATIVE = {            # native function -> index of the argument it over
     '_distance.dt': 0, '_interpolate.spline_filter1d': 0, '_surf.integral': 0, '_thin.thin': 0,
     '_convolve.haar': 0, '_convolve.ihaar': 0, '_convolve.daubechies': 0, '_convolve.idaubechies': 0,
     '_convolve.wavelet': 0, '_convolve.iwavelet': 0}
-FRESH_CALLS = {'zeros', 'empty', 'ones', 'copy', 'astype', 'array', 'zeros_like', 'empty_like', 'arange', 'reshape'}
+FRESH_CALLS = {'zeros', 'empty', 'ones', 'full', 'copy', 'astype', 'array', 'zeros_like', 'empty_like', 'ones_like', 'full_like',
+               'arange', 'reshape'}
 VIEW_CALLS = {'moveaxis', 'transpose', 'swapaxes'}
 
 
